@@ -6,7 +6,7 @@ import warnings
 
 from lark.exceptions import UnexpectedToken
 from lark.lexer import Token, LexerThread
-from .lalr_parser_state import ParserState
+from .lalr_parser_state import ParserState, _is_terminal_name
 
 ###{standalone
 
@@ -109,7 +109,7 @@ class InteractiveParser:
         # and are unnecessarily slow.
         conf_no_callbacks.callbacks = {}
         for t in self.choices():
-            if t.isupper(): # is terminal?
+            if _is_terminal_name(t):
                 new_cursor = self.copy(deepcopy_values=False)
                 new_cursor.parser_state.parse_conf = conf_no_callbacks
                 try:
